@@ -176,7 +176,7 @@ second node gives the first node back **through the first list's triple**; `zip_
 each node through its own list's triple — the ledger after the call is literally this expression -/
 theorem zip_charges_each_own_triple (t t2 : Triple) (xs ys : List Nat) (c : LSeq.Cursor) (m : Mem) (x1 x2 k : Nat)
     (hc : c.cur = some k) :
-    (∀ z, DList.ZipRel xs ys c z → c.pos = k + 1 →
+    (∀ z, DList.ZipRel xs ys c z →
       (DList.zipAdd (ofList t xs) (ofList t2 ys) z x1 x2 m).2.2.2.2 =
         (if (m.allocT t).1 then (if ((m.allocT t).2.allocT t2).1 then ((m.allocT t).2.allocT t2).2
           else ((m.allocT t).2.allocT t2).2.freeT t) else (m.allocT t).2) ∧
@@ -186,8 +186,8 @@ theorem zip_charges_each_own_triple (t t2 : Triple) (xs ys : List Nat) (c : LSeq
         (if (m.allocT t).1 then (if ((m.allocT t).2.allocT t2).1 then ((m.allocT t).2.allocT t2).2
           else ((m.allocT t).2.allocT t2).2.freeT t) else (m.allocT t).2) ∧
       (SList.zipRemove (ofList t xs) (ofList t2 ys) z m).2.2.2.2.2 = (m.freeT t).freeT t2) := by
-  refine ⟨fun z h hp => ?_, fun z h => ?_⟩
-  · obtain ⟨z', e, _⟩ := DList.zipAdd_ofList (t := t) (t2 := t2) xs ys c z x1 x2 k m h hc hp
+  refine ⟨fun z h => ?_, fun z h => ?_⟩
+  · obtain ⟨z', e, _⟩ := DList.zipAdd_ofList (t := t) (t2 := t2) xs ys c z x1 x2 k m h hc
     obtain ⟨z'', e2, _⟩ := DList.zipRemove_ofList (t := t) (t2 := t2) xs ys c z m h
     rw [e, e2]
     refine ⟨by by_cases a : (m.allocT t).1 = true <;> by_cases b : ((m.allocT t).2.allocT t2).1 = true <;> simp [a, b], ?_⟩
